@@ -19,6 +19,7 @@ RULE = ("exhaustive enumeration of (key, interval in -48..48), (key, a, b in -13
         "arbitrary magnitude. Oracle: tonic/scale read from KeyNoteMapping shifted mod 12; major-scale shape; "
         "distance in [-5,6], congruent to position difference, from_distance lands on target; one step = a fifth. "
         "Non-trivial = every case except the identity interval on C major; distinct by case digest.")
+RULE = RULE + " Rounds e-g: wide and negative integers before ordinary pitches, table integrity after ordinary library use (key guess, transposition, MIDI key loading, get_info, equals / merge of differently keyed sequences)."
 ASSUMPTIONS = ["KeyNoteMapping's first element of each scale list is the tonic (checked: it must span a major scale)",
                "enharmonic spelling of the returned key is free (compared as tonic pitch class + pitch-class set)"]
 TIERS = {"quick": dict(shards=2, examples=300, enum_shards=6),
@@ -62,7 +63,7 @@ def strategy(params, shard, nshards):
                   st.integers(-300, 500), st.one_of(st.integers(-130, -1), st.integers(-300, 500))),
         # the tables are shared module-level objects: they must be intact after the rest of the library has used them
         st.builds(lambda w, pitches, n: {"kind": "after_use", "workout": w, "pitches": pitches, "n": n},
-                  st.lists(st.sampled_from(["guess", "guess_keyed", "transpose", "bar_transpose", "load_key", "get_info"]), min_size=1, max_size=4),
+                  st.lists(st.sampled_from(["guess", "guess_keyed", "transpose", "bar_transpose", "load_key", "get_info", "equals_keys", "merge_keys"]), min_size=1, max_size=4),
                   st.lists(st.integers(21, 108), min_size=0, max_size=6), st.integers(-30, 30)),
     )
 
@@ -96,6 +97,17 @@ def _workout(out, case):
                 m = MidiFile()
                 m.parse_mido(mf)
                 Sequence.sequences_load(midi_file=m)
+            elif w in ("equals_keys", "merge_keys"):
+                keys = ["Db", "D", "Gb", "F#", "Cb", "B", "C#", "C"]
+                k1 = keys[case["n"] % len(keys)]
+                k2 = keys[(case["n"] // 3 + 1) % len(keys)]
+                a = build.sequence({"notes": notes, "meta": [["ks", 0, k1]], "route": "abs_sorted", "pad": 96})
+                b = build.sequence({"notes": notes, "meta": [["ks", 0, k2]], "route": "rel", "pad": 96})
+                if w == "equals_keys":
+                    a.equals(b), b.equals(a), a == b, a.equals(b, ignore_key_signature=True)
+                else:
+                    a.merge([b])
+                    a.normalise()
             elif w == "get_info":
                 tok = T.make_tokeniser({"num_tracks": 1, "pitch_range": [21, 108], "step_sizes": None, "note_values": None,
                                         "velocity_bins": 1, **{f: True for f in T.FLAG_NAMES}})
